@@ -1190,6 +1190,10 @@ func (app *App) enableSemiSyncOnSlave(host string, slaveState, masterState *node
 		app.logger.Error().Err(err).Msgf("failed to enable semi_sync_slave on %s", host)
 		return err
 	}
+	if masterState == nil || masterState.MasterState == nil || slaveState == nil || slaveState.SlaveState == nil {
+		// incomplete observation of the master or of the replica (a status query failed)
+		return fmt.Errorf("cannot compare gtids of %s with master: node state is incomplete", host)
+	}
 	masterGtidSet := gtids.ParseGtidSet(masterState.MasterState.ExecutedGtidSet)
 	slaveGtidSet := gtids.ParseGtidSet(slaveState.SlaveState.ExecutedGtidSet)
 
@@ -1998,10 +2002,15 @@ func (app *App) repairCascadeNode(node *mysql.Node, clusterState map[string]*nod
 		candidateState := clusterState[upstreamCandidate]
 		candidateNode := app.cluster.Get(upstreamCandidate)
 		var candidateGTIDs gtids.GTIDSet
-		if candidateState.IsMaster {
+		switch {
+		case candidateState != nil && candidateState.IsMaster && candidateState.MasterState != nil:
 			candidateGTIDs = gtids.ParseGtidSet(candidateState.MasterState.ExecutedGtidSet)
-		} else {
+		case candidateState != nil && !candidateState.IsMaster && candidateState.SlaveState != nil:
 			candidateGTIDs = gtids.ParseGtidSet(candidateState.SlaveState.ExecutedGtidSet)
+		default:
+			// incomplete observation of the candidate (a status query failed)
+			app.logger.Warn().Msgf("repair: state of new stream_from candidate %s is incomplete, will retry", upstreamCandidate)
+			return
 		}
 		app.logger.Debug().Msgf("repair: %s GTID set = %v, new stream_from GTID set is %v", host, myGTIDs, candidateGTIDs)
 
